@@ -87,6 +87,9 @@ type Metastore struct {
 	Delays map[int]time.Duration // call index -> (virtual) latency before the call executes
 	// ReadFaultIn > 0 makes the n-th read (Load/LoadLatest) from now fail with a transient error; writes are unaffected
 	ReadFaultIn int
+	// FailReadsOf, while non-empty, makes every read (Load/LoadLatest) of that key id fail: the record is unreadable
+	// for as long as the outage lasts, however often the caller retries
+	FailReadsOf string
 	Latency     func(op string) time.Duration // optional random latency source
 	// Gate, when set, is called before every call is executed (outside the monitor's mutex);
 	// a scheduler blocks here to decide which pending call goes next.
@@ -123,6 +126,9 @@ func (m *Metastore) begin(op, id string, created int64, in *appencryption.Envelo
 		if m.ReadFaultIn == 0 {
 			f = FaultErr
 		}
+	}
+	if op != "store" && m.FailReadsOf != "" && id == m.FailReadsOf {
+		f = FaultErr
 	}
 	d := m.Delays[c.Idx]
 	m.counts[op]++
